@@ -76,6 +76,11 @@ CHECKS = {
                   'DONE task has a DONE dependency that finished after it started or a failed hard dependency, and an up-to-date task is neither '
                   're-executed nor modified. Composes over histories of any length.',
              design='DESIGN.md sections 2.2, 4 C04'),
+ 'C14': dict(technique='bounded symbolic execution of the real persistence code (symrun + z3) against fault-injecting stubs of open() and pickle: statuses, crash point of the write phase, errno values and the exception raised by a damaged file are solver-chosen',
+             text='For <= 2 (3) tasks with every status / output_dir pattern, older files on disk, every write fault (open fails, crash leaving an empty '
+                  'or truncated file) and read fault (errno symbolic, garbage) and EVERY exception of the unpickling contract: read_env never raises and '
+                  'returns exactly the intact DONE entries as written.',
+             design='DESIGN.md section 4 C14'),
 }
 
 NOT_YET = {}
